@@ -125,7 +125,16 @@ fn main() {
 
     if let Some(code) = verdict.strip_prefix("fail:") {
         let code: i32 = code.parse().unwrap_or(128);
+        // a long, localized, multi-line diagnostic (as a git with a non-English locale prints): its length
+        // varies with the call index so that byte offsets fall inside multi-byte characters somewhere
         eprintln!("fatal: simulated git failure (simgit call {})", idx);
+        let pad = "x".repeat((idx % 7) as usize);
+        for k in 0..6 {
+            eprintln!(
+                "{}ヒント: 操作を完了できませんでした — Vorgang konnte nicht abgeschlossen werden ({}) — l'opération a échoué",
+                pad, k
+            );
+        }
         std::process::exit(code);
     }
     if verdict == "kill" {
